@@ -29,12 +29,20 @@ def supported(cell, kind):
 
 class Spec(CC.ConcSpec):
     pid = "C18"
-    modules = ["MmtkModel.Props.C18"]
+    modules = ["MmtkModel.Props.C18", "MmtkModel.Props.C18Byte"]
     theorems = ["Mmtk.CasBit.at_most_one_true", "Mmtk.CasBit.false_means_done", "Mmtk.CasBit.true_means_transition",
                 "Mmtk.CasBit.winner_returns_true", "Mmtk.CasBit.single_shot_false_has_winner",
                 "Mmtk.CasBit.markProto_wf", "Mmtk.CasBit.logProto_wf", "Mmtk.CasBit.pinProto_wf", "Mmtk.CasBit.losProto_wf",
                 "Mmtk.CasBit.unpinProto_wf", "Mmtk.CasBit.losNurseryProto_wf",
-                "Mmtk.CasBit.pin_can_fail_spuriously_with_neighbours", "Mmtk.CasBit.outcome_sound"]
+                "Mmtk.CasBit.pin_can_fail_spuriously_with_neighbours", "Mmtk.CasBit.outcome_sound",
+                # objects whose fields share one metadata byte (byte-wide compare-exchange): every run of the two-field byte
+                # model projects, for each field, to a run of the per-object model; per-field theorems and verdict
+                "Mmtk.CasByte.pair_inj", "Mmtk.CasByte.proj_exec", "Mmtk.CasByte.neighbours_independent",
+                "Mmtk.CasByte.neighbours_independent_pair", "Mmtk.CasByte.cas_leaves_neighbour",
+                "Mmtk.CasByte.one_winner_per_field", "Mmtk.CasByte.outcome_sound_per_field",
+                "Mmtk.CasByte.outcome_sound_per_field_looping", "Mmtk.CasByte.trues_proj",
+                "Mmtk.CasByte.spurious_failure_then_retry", "Mmtk.CasByte.pin_fails_spuriously_next_to_racing_neighbour",
+                "Mmtk.CasByte.stale_write_undoes_neighbour"]
     component = "casbit"
     race_component = "casbit"
     relation = ("Mmtk.CasBit.localStep (thread run to `ret`) ≙ MarkState::test_and_mark, ImmixSpace::attempt_mark, "
@@ -47,13 +55,21 @@ class Spec(CC.ConcSpec):
         "fake object outside the spaces (the methods only touch the object's metadata)",
         "races sample schedules; the concurrent neighbour is another object's field in the same byte (side) or another field of "
         "the same object in the same byte (in-header)",
+        "multi-object races: side layout only (different objects share a metadata byte only there); the window between the byte "
+        "load and the byte CAS inside compare_exchange_atomic has no yield point (add-only hooks cannot put one there): it is hit "
+        "by real parallelism over many rounds",
         "pin_object/unpin_object are single-shot: with a concurrent neighbour they may fail spuriously (outside C18's quantifier; "
         "theorem pin_can_fail_spuriously_with_neighbours) — the verdict then only requires at most one `true` and field changed iff one",
     ]
     rule = ("sequential: every layout x slot x helper x field value x random/boundary neighbour bits, 1-4 calls per cell, exact "
             "differential + Python oracle (result = state was not yet transitioned; field = transitioned value; every other bit "
             "unchanged); races: N in 2..16 real threads call one helper on one object, optionally with a concurrent neighbour "
-            "writer, outcome judged by Mmtk.CasBit.outcomeOk (Lean, proved sound by outcome_sound) and by the Python oracle")
+            "writer, outcome judged by Mmtk.CasBit.outcomeOk (Lean, proved sound by outcome_sound) and by the Python oracle; "
+            "multi-object races: k in {2,4,8} objects whose fields share ONE side-metadata byte (1-bit mark/log/pin: adjacent 8-byte "
+            "objects; 2-bit LOS: objects one page apart), T in 2..12 threads each calling the helper on all k objects starting at a "
+            "different neighbour, spin rendezvous per round, yield points on/off; EVERY object of every round judged by outcomeOk "
+            "(sound per field: CasByte.outcome_sound_per_field) and by the Python oracle (exactly one winner, transitioned final state "
+            "for every object, bits outside the group unchanged)")
 
     def rand_op(self, rng, cell):
         k = rng.choice(KINDS + ["ismarked", "ispinned"])
@@ -176,7 +192,14 @@ class Spec(CC.ConcSpec):
         res, hx = split_out(line)
         if hx is None:
             return [("race:casbit:crash", f"race did not finish: {line}")]
+        return self.outcome_bad(kind, n, env, arg, nursery, c0, res, hx, alone=not env)
+
+    @staticmethod
+    def outcome_bad(kind, n, env, arg, nursery, c0, res, hx, alone):
+        """C18 on ONE object: `n` threads called the helper on the object whose initial cell is `c0`; `res` = `t=… f=…`,
+        `hx` = its final cell; `env`: other bits of the metadata byte were changing concurrently."""
         fin = Cell.parse_hex(c0.l, c0.slot, hx)
+        fin.page = c0.page
         f = dict(x.split("=", 1) for x in res.split())
         nt, nf = int(f["t"]), int(f["f"])
         done, nxt, single, old0 = proto(c0, kind, arg, nursery)
@@ -184,7 +207,7 @@ class Spec(CC.ConcSpec):
         v0, v1 = c0.get(fld), fin.get(fld)
         bad = []
         if nt + nf != n:
-            bad.append((f"race:casbit:{kind}:count", f"{nt}+{nf} results for {n} threads"))
+            bad.append((f"race:casbit:{kind}:count", f"{nt}+{nf} results for {n} threads ({res})"))
         if nt > 1:
             bad.append((f"race:casbit:{kind}:two-winners", f"{nt} threads observed the transition as their own"))
         fresh = (v0 == old0) if single else not done(v0)
@@ -193,7 +216,7 @@ class Spec(CC.ConcSpec):
                 bad.append((f"race:casbit:{kind}:winner-count", f"field was {v0} ({'not yet' if fresh else 'already'} transitioned): {nt} winners"))
         if v1 != (nxt(v0) if nt >= 1 else v0):
             bad.append((f"race:casbit:{kind}:final-state", f"field {v0} -> {v1} with {nt} winners"))
-        if not env and fin.others(fld) != c0.others(fld):
+        if alone and fin.others(fld) != c0.others(fld):
             bad.append((f"race:casbit:{kind}:clobber", f"other bits changed: {c0.set_line()} -> {hx}"))
         return bad
 
@@ -207,6 +230,81 @@ class Spec(CC.ConcSpec):
                 spurious += 1
         return {"race_threads": th, "race_kind": kinds, "single_shot_races_without_winner": spurious}
 
+    # ---------------------------------------------------------------- multi-object races (objects sharing one metadata byte)
+    def group_cases(self, rng, tier):
+        """k objects whose 1-bit (mark / log / pin: 8 per byte) or 2-bit (LOS: 4 per byte) fields share ONE side-metadata byte;
+        T threads, each calling the helper on ALL k objects starting at a different neighbour; `rounds` rounds per case."""
+        per_kind, rounds = (8, 150) if tier == "quick" else (60, 600)
+        cases = []
+        for i in range(per_kind * len(KINDS)):
+            kind = KINDS[i % 6]
+            k = rng.choice([2, 4, 4]) if kind == "los" else [8, 4, 8, 2][i // 6 % 4]
+            nt = rng.choice([2, 3, 4, 4, 8, 8, 12])
+            arg = {"mark": rng.randrange(2), "immix": 1, "los": rng.choice([0, 1, 1]), "log": 0, "pin": 0, "unpin": 0}[kind]
+            nursery = rng.randrange(2) if kind == "los" else 0
+            c = CC.rand_cell(rng, l=0, slot=0)
+            # mostly: every raced object starts in the not-yet-transitioned state; the other fields of the byte stay random
+            mode = rng.random()
+            for j in range(k):
+                cj = c.at(j, los=(kind == "los"))
+                done, nxt, single, old0 = proto(cj, kind, arg, nursery)
+                if mode < 0.7 or (mode < 0.9 and rng.random() < 0.5):
+                    for v in range(4):
+                        cj.put(FIELD_OF[kind], v)
+                        if cj.get(FIELD_OF[kind]) == v and ((v == old0) if single else not done(v)):
+                            break
+                    c.v = cj.v
+            seed = 0 if i // 6 % 2 == 0 else rng.getrandbits(40) | 2      # 0: yield points off, pure parallelism
+            cases.append(Case([f"casbit mrace {kind} {nt} {seed} {k} {rounds} {arg} {nursery}"], ["cfg debug 1", c.set_line()], "group"))
+        return cases
+
+    def group_judge_op(self, case, j, obj):
+        t = case.ops[0].split()
+        # env = 1: the neighbouring fields of the byte are being changed concurrently (by the racers of the other objects)
+        return f"casbit judgeat {j} {t[2]} {t[3]} 1 {t[7]} {t[8]} {obj}"
+
+    def group_oracle(self, case, rounds):
+        t = case.ops[0].split()
+        kind, n, k, arg, nursery = t[2], int(t[3]), int(t[5]), int(t[7]), t[8] != "0"
+        tpl = Cell.parse_set(case.pre[-1])
+        los = kind == "los"
+        fld = FIELD_OF[kind]
+        loc = tpl.fld(fld)[0]
+        width = tpl.fld(fld)[2]
+        keep = ~((1 << (width * k)) - 1) & 0xff
+        bad, seen = [], set()
+        for ri, r in enumerate(rounds):
+            if len(r) != k:
+                return [("race:casbit:group:shape", f"round {ri}: {len(r)} objects reported for a group of {k}")]
+            for j, obj in enumerate(r):
+                res, hx = split_out(obj)
+                if hx is None:
+                    return [("race:casbit:group:shape", f"round {ri} object {j}: {obj}")]
+                c0 = tpl.at(j, los=los)
+                for key, what in self.outcome_bad(kind, n, True, arg, nursery, c0, res, hx, alone=False):
+                    key = key.replace("race:casbit:", "race:casbit:group:")
+                    if key not in seen:
+                        seen.add(key)
+                        bad.append((key, f"round {ri}, object {j} of {k} (T={n}): {what}; outcome `{obj}`"))
+                fin = Cell.parse_hex(0, 0, hx)
+                # fields of objects outside the group in the raced byte; (non-LOS objects are adjacent: all five bytes are shared)
+                if (fin.v[loc] & keep) != (tpl.v[loc] & keep) or (not los and any(fin.v[x] != tpl.v[x] for x in ("mf", "mm", "mg", "mp", "ml") if x != loc)):
+                    if "clobber" not in seen:
+                        seen.add("clobber")
+                        bad.append((f"race:casbit:group:{kind}:clobber", f"round {ri}, object {j}: bits outside the group changed: {tpl.set_line()} -> {hx}"))
+        return bad
+
+    def group_summary(self, cases, parsed):
+        cfg, shapes = {}, {}
+        for c, rounds in zip(cases, parsed):
+            t = c.ops[0].split()
+            key = f"{t[2]}/T{t[3]}/k{t[5]}/{'yield' if t[4] != '0' else 'free'}"
+            cfg[key] = cfg.get(key, 0) + (len(rounds) if rounds else 0)
+            for r in rounds or []:
+                w = sum(1 for obj in r if obj.startswith("t=1 "))
+                shapes[f"{w}-of-{len(r)}-objects-with-a-winner"] = shapes.get(f"{w}-of-{len(r)}-objects-with-a-winner", 0) + 1
+        return {"group_rounds_by_config": cfg, "group_round_shapes": shapes}
+
 
 META = {
     "text": "Lean theorems (any number of threads racing on the same object, every interleaving, arbitrary concurrent changes to the "
@@ -214,7 +312,10 @@ META = {
             "the transition, exactly one winner once anybody returned; single-shot pin/unpin under no neighbour interference; the "
             "spurious pin failure with a neighbour is exhibited. Tie: exact sequential differential of the model thread against the "
             "six real helpers on four metadata layouts, plus real-thread races (2-16 threads, yield points, concurrent neighbour "
-            "writer) judged by the Lean predicate (outcome_sound) and a Python oracle.",
+            "writer) judged by the Lean predicate (outcome_sound) and a Python oracle; and multi-object races (2/4/8 objects "
+            "whose fields share one side-metadata byte, every thread works through all of them in rotation) with every object "
+            "judged on its own — justified by CasByte.neighbours_independent: a two-field byte model whose CAS compares the "
+            "whole byte projects, per field, onto the per-object model (the neighbour's transitions are environment steps).",
     "note": "Proof over the SC model; partial w.r.t. the code (sampled schedules). ImmixSpace::attempt_mark / LOS test_and_mark "
             "are exercised on the side layout only (space instances of an Immix-plan MMTK<VerifVM>).",
     "technique": "Lean 4 inductive invariant over an unbounded-thread transition system + exact differential + real-thread races "
